@@ -84,6 +84,9 @@ EXPRS += [
     ("expr", "src/lib.rs", "new_chunk", ("let", "footer_ptr", 1), "new_chunk_footer_at", ("data", "new_size_without_footer")),
     ("expr", "src/lib.rs", "new_chunk", ("let", "ptr", 1), "new_chunk_finger", ("data", "new_size_without_footer")),
     ("expr", "src/lib.rs", "new_chunk", ("let", "allocated_bytes", 1), "new_chunk_allocated_bytes", ("new_size_without_footer",)),
+    # chunk iteration: what a footer reports as its slice (`self` is the footer, by address)
+    ("expr", "src/lib.rs", "as_raw_parts", ("let", "ptr", 1), "chunk_parts_ptr"),
+    ("expr", "src/lib.rs", "as_raw_parts", ("let", "len", 1), "chunk_parts_len"),
     # the capacity constructor: the two assertions, the zero test, the layout asked for, and that no
     # size is "given" to new_chunk_memory_details (so the default chunk size is the floor)
     ("expr", "src/lib.rs", "try_with_min_align_and_capacity", ("assert", 1), "ctor_align_is_pow2"),
@@ -164,6 +167,19 @@ FRAMES = [
      "ifcapacity==0{returnOk(Bump{current_chunk_footer:Cell::new(EMPTY_CHUNK.get()),allocation_limit:Cell::new(None),});}"),
     ("src/lib.rs", "try_with_min_align_and_capacity", "ctor_one_chunk_no_limit",
      "letchunk_footer=unsafe{Self::new_chunk(Self::new_chunk_memory_details(None,layout).ok_or(AllocErr)?,layout,EMPTY_CHUNK.get(),).ok_or(AllocErr)?};Ok(Bump{current_chunk_footer:Cell::new(chunk_footer),allocation_limit:Cell::new(None),})"),
+    # chunk iteration: start at the current footer, stop at the sentinel, follow prev; the safe
+    # iterator wraps the raw one; the metadata total counts the raw iterator's items
+    ("src/lib.rs", "as_raw_parts", "chunk_parts_returned", "(ptr,len)}"),
+    ("src/lib.rs", "next#1", "chunk_iter_wraps_raw",
+     "{unsafe{let(ptr,len)=self.raw.next()?;letslice=slice::from_raw_parts(ptras*constmem::MaybeUninit<u8>,len);Some(slice)}}"),
+    ("src/lib.rs", "next#2", "chunk_raw_iter_walk",
+     "{unsafe{letfoot=self.footer.as_ref();iffoot.is_empty(){returnNone;}let(ptr,len)=foot.as_raw_parts();self.footer=foot.prev.get();Some((ptras*mutu8,len))}}"),
+    ("src/lib.rs", "iter_allocated_chunks_raw", "chunk_raw_iter_starts_at_current",
+     "{ChunkRawIter{footer:self.current_chunk_footer.get(),bump:PhantomData,}}"),
+    ("src/lib.rs", "iter_allocated_chunks", "chunk_iter_from_raw",
+     "{letraw=unsafe{self.iter_allocated_chunks_raw()};ChunkIter{raw,bump:PhantomData,}}"),
+    ("src/lib.rs", "allocated_bytes_including_metadata", "metadata_counts_chunks",
+     "{letmetadata_size=unsafe{self.iter_allocated_chunks_raw().count()*mem::size_of::<ChunkFooter>()};self.allocated_bytes()+metadata_size}"),
     # giving memory back: the chunk-list walk, what Drop and the sentinel test are
     ("src/lib.rs", "dealloc_chunk_list", "chunk_list_walk",
      "{while!footer.as_ref().is_empty(){letf=footer;footer=f.as_ref().prev.get();dealloc(f.as_ref().data.as_ptr(),f.as_ref().layout);}}"),
@@ -761,6 +777,12 @@ def split_cmp(term):
 
 
 def find_fn(txt, name):
+    """body of the function called `name`; `name#k` is the k-th function of that name in the file"""
+    want = 1
+    if "#" in name:
+        name, k = name.split("#")
+        want = int(k)
+    seen = 0
     for m in re.finditer(r"\bfn\s+%s\b" % re.escape(name), txt):
         j = m.end()
         while txt[j].isspace():
@@ -775,6 +797,9 @@ def find_fn(txt, name):
         params = txt[j + 1:k - 1]
         b = txt.index("{", k)
         e = matching(txt, b, "{", "}")
+        seen += 1
+        if seen < want:
+            continue
         return params, txt[b:e]
     return None
 
